@@ -321,6 +321,9 @@ package postgres
 //@ ensures err == nil ==> result != nil
 
 //@ func (*PostgresStoreWorker).searchPromises
+// a library call the engine has no model of yields an arbitrary value instead of ending the path: what is passed to
+// the statement is still compared with the specification
+//@ abstract-calls external
 //@ props C16 C17 C02 C20 C14 C01 C04
 //@ records handler
 // every returned record is the row it was scanned from, column by column (C01, C20: what a sweep or a search reports is what is stored)
@@ -356,6 +359,9 @@ package postgres
 //@ ensures err == nil ==> result != nil
 
 //@ func (*PostgresStoreWorker).searchSchedules
+// a library call the engine has no model of yields an arbitrary value instead of ending the path: what is passed to
+// the statement is still compared with the specification
+//@ abstract-calls external
 //@ props C16 C17 C02 C20 C14 C10 C01
 //@ records handler
 // every returned record is the row it was scanned from, column by column (C01, C20: what a sweep or a search reports is what is stored)
